@@ -346,6 +346,32 @@ class Exec(Engine):
                 out.extend(self.index_read(s2, b2, idx, e))
         return out
 
+    def mask_read(self, st, n, m, line):
+        """a[boolean array]: the elements at the true positions, in order (numpy refuses a mask of another length).
+        Modelled by a strictly increasing position map `sel` onto the true positions and its inverse `inv`."""
+        self.world.used.add('mask-index')
+        out = []
+        ok, bad = self.fork(st, m.n == n.n)
+        for s in bad:
+            out.append(self.exc(s, 'IndexError'))
+        for s in ok:
+            s = s.copy()
+            res = fresh('masked', n.a.sort())
+            cnt = fresh('nsel', I)
+            sel = fresh('sel', z3.ArraySort(I, I))
+            inv = fresh('selinv', z3.ArraySort(I, I))
+            p, q, k = fresh('p', I), fresh('q', I), fresh('k', I)
+            s.assume(cnt >= 0, cnt <= n.n,
+                     z3.ForAll([p], z3.Implies(z3.And(0 <= p, p < cnt),
+                                               z3.And(0 <= sel[p], sel[p] < n.n, m.a[sel[p]], res[p] == n.a[sel[p]],
+                                                      inv[sel[p]] == p)), patterns=[res[p]]),
+                     z3.ForAll([k], z3.Implies(z3.And(0 <= k, k < n.n, m.a[k]),
+                                               z3.And(0 <= inv[k], inv[k] < cnt, sel[inv[k]] == k)), patterns=[m.a[k]]),
+                     z3.ForAll([p, q], z3.Implies(z3.And(0 <= p, p < q, q < cnt), sel[p] < sel[q]),
+                               patterns=[z3.MultiPattern(sel[p], sel[q])]))
+            out.append(Result(s, s.alloc(Arr(n.elem, res, cnt, n.flavour))))
+        return out
+
     def index_read(self, st, base, idx, node):
         line = getattr(node, 'lineno', 0)
         if hasattr(base, 'sv_index'):
@@ -378,6 +404,8 @@ class Exec(Engine):
                     out = fresh('gather', n.a.sort())
                     st.assume(z3.ForAll([k], out[k] == n.a[f.a[k]], patterns=[out[k]]))
                     return [Result(st, st.alloc(Arr(n.elem, out, f.n, n.flavour)))]
+                if idx.kind == 'ref' and isinstance(st.node(idx), Arr) and st.node(idx).elem == 'bool':
+                    return self.mask_read(st, n, st.node(idx), line)
                 t = to_int(idx)
                 self.oblige(st, 'index-bounds', z3.And(t >= 0, t < n.n), line)
                 return [Result(st, self.wrap(n.elem, n.a[t]))]
@@ -514,6 +542,20 @@ class Exec(Engine):
             kwnames = [k.arg for k in e.keywords]
             acc, excs = self.ev_list(argexprs + [k.value for k in e.keywords] + ([star] if star is not None else []), r.st)
             out.extend(excs)
+            # an optional value handed to a callee is decided first (None, or the value itself)
+            acc2 = []
+            for s, vals in acc:
+                alts = [(s, [])]
+                for v in vals:
+                    nxt = []
+                    for s1, done in alts:
+                        if v is not None and getattr(v, 'kind', None) == 'opt':
+                            nxt.extend((s2, done + [v2]) for s2, v2 in self.norm_opt(s1, v))
+                        else:
+                            nxt.append((s1, done + [v]))
+                    alts = nxt
+                acc2.extend(alts)
+            acc = acc2
             for s, vals in acc:
                 na = len(argexprs)
                 args = vals[:na]
